@@ -186,7 +186,9 @@ def cleanupContexts (s : BSt) : BSt :=
         | [] => (s, none)
         | i :: rest =>
           if (s.th i).valid then findFirst s rest
-          else let r := ctxEmpty s i; if r.2 then (r.1, some i) else findFirst r.1 rest
+          else let r := ctxEmpty s i
+               -- F24: an unreported failure counter keeps the context (the next `checkFailures` reports it)
+               if r.2 && (!s.cfg.cleanupKeepsUnreported || (s.th i).fail == 0) then (r.1, some i) else findFirst r.1 rest
       match findFirst s s.cache with
       | (s1, none) => s1
       | (s1, some i) =>
